@@ -16,7 +16,7 @@ func init() { registry["C11"] = propC11 }
 func propC11() *Property {
 	return &Property{
 		ID:          "C11",
-		Explanation: "Structural clauses of the feed property only. Decided: (R1) the feed simply ends — no pointer that may be nil is ever converted into a pub.Container or pub.Tangible interface anywhere in the module (a typed nil passes every `!= nil` test of the UI and crashes on the next Harvest); (R2) splicer.NewSplicer's type switch covers every dynamic type pub.FetchUserInput can return, so its panic is unreachable; (R3) the parallel replenish/NewSplicer fan-out is race-free (decided by C08.R5); (R4) Splicer.Harvest never writes through its receiver — it works on a clone — which is necessary for the same feed position to give the same answer twice; (R5) because clone() copies the per-source buffers shallowly, a feed value and all its clones / continuations share the arrays behind `elements`: those arrays are only re-sliced or re-allocated by append, never written in place (no indexed store, no copy into them other than clone's own self-copy); (R6) replenish visits every source on every call — no return skips the fan-out loop — and refills a source exactly when its own buffer is shorter than the requested depth and it still has a page, asking that page for exactly the missing number of items from its own base point (a necessary condition for choosing among the true heads of all sources). (R5) buffered items are shared with clones and never written in place; (R6) replenish visits every source and refills exactly those whose own buffer is shorter than the requested depth, by the difference, from the source's own base point; (R7) every trip round microharvest's selection loop is classified: the best is kept only for an empty source / nil head or when the best exists and the head's timestamp is not After it, it is replaced by the head only when there was none or the head is strictly After (ties stay with the first source); nil is returned only where the best is nil; the popped source is the one recorded with the best. (R8) NewSplicer stores the page fetched for inputs[k] at s[k].page, k the induction variable of the loop over the inputs, in a Splicer made with len(inputs) slots. (R9) nothing moves an element of a Splicer to another index and nothing sorts or shuffles one: ties stay with the source listed first. (R10 = C10.R4) a page names itself as continuation only when it delivered the full amount: a source that answers short is exhausted, which replenish relies on. NOT decided: that the output is the newest-first merge, exactly-once delivery, tie-breaking and idempotence as values (they quantify over timestamps and slices; no static argument in reach decides them).",
+		Explanation: "Structural clauses of the feed property only. Decided: (R1) the feed simply ends — no pointer that may be nil is ever converted into a pub.Container or pub.Tangible interface anywhere in the module (a typed nil passes every `!= nil` test of the UI and crashes on the next Harvest); (R2) splicer.NewSplicer's type switch covers every dynamic type pub.FetchUserInput can return, so its panic is unreachable; (R3) the parallel replenish/NewSplicer fan-out is race-free (decided by C08.R5); (R4) Splicer.Harvest never writes through its receiver — it works on a clone — which is necessary for the same feed position to give the same answer twice; (R5) because clone() copies the per-source buffers shallowly, a feed value and all its clones / continuations share the arrays behind `elements`: those arrays are only re-sliced or re-allocated by append, never written in place (no indexed store, no copy into them other than clone's own self-copy); (R6) replenish visits every source on every call — no return skips the fan-out loop — and refills a source exactly when its own buffer is shorter than the requested depth and it still has a page, asking that page for exactly the missing number of items from its own base point (a necessary condition for choosing among the true heads of all sources). (R5) buffered items are shared with clones and never written in place; (R6) replenish visits every source and refills exactly those whose own buffer is shorter than the requested depth, by the difference, from the source's own base point; (R7) every trip round microharvest's selection loop is classified: the best is kept only for an empty source / nil head or when the best exists and the head's timestamp is not After it, it is replaced by the head only when there was none or the head is strictly After (ties stay with the first source); nil is returned only where the best is nil; the popped source is the one recorded with the best. (R8) NewSplicer stores the page fetched for inputs[k] at s[k].page, k the induction variable of the loop over the inputs, in a Splicer made with len(inputs) slots. (R9) nothing moves an element of a Splicer to another index and nothing sorts or shuffles one: ties stay with the source listed first. (R10 = C10.R4) a page names itself as continuation only when it delivered the full amount: a source that answers short is exhausted, which replenish relies on. (R12) Harvest replenishes the sources to exactly quantity + startingPoint. NOT decided: that the output is the newest-first merge, exactly-once delivery, tie-breaking and idempotence as values (they quantify over timestamps and slices; no static argument in reach decides them).",
 		Assumptions: []string{"VTA call graph / MakeInterface sites over-approximate the dynamic types of interface values"},
 		Rules: []Rule{
 			{ID: "C11.R1", Title: "no typed-nil pointer is converted to Container / Tangible", Floor: 30, Run: c11R1},
@@ -27,6 +27,7 @@ func propC11() *Property {
 			{ID: "C11.R8", Title: "source k of the feed is input k (ties go to the source listed first)", Floor: 1, Run: c11R8},
 			{ID: "C11.R9", Title: "the order of the sources is never permuted", Floor: 1, Run: c11R9},
 			{ID: "C11.R10", Title: "a source that answers short is exhausted: a page names itself as continuation only when it delivered the full amount (same instances as C10.R4)", Floor: 3, Run: c10R4},
+			{ID: "C11.R12", Title: "every source is asked to hold what the request can take from it: Harvest replenishes to quantity + startingPoint, nothing subtracted", Floor: 1, Run: c11R12},
 			{ID: "C11.R11", Title: "the feed ends only when a selection found every buffer empty", Floor: 1, Run: c11R11},
 			{ID: "C11.R7", Title: "the selection loop: a head is passed over only if it is empty or not newer than the best so far", Floor: 3, Run: c11R7},
 		},
@@ -786,5 +787,38 @@ func c11R11(c *Ctx) {
 	}
 	if n == 0 {
 		c.note(hname+"/ends-on-empty-selection", P.Pos(h.Pos()), hname, "Harvest never returns a nil continuation")
+	}
+}
+
+// c11R12: the refill rule of replenish (C11.R6) is about a source whose buffer
+// is shorter than the amount it is given. What Harvest gives it must be all a
+// single source may have to deliver for this request — startingPoint items to
+// skip plus quantity items to return: with less, a source that won the last
+// page and is empty now is not refilled and counts as exhausted, and older
+// items of the others come out first (seed C11-1r12 subtracted what is
+// buffered elsewhere).
+func c11R12(c *Ctx) {
+	P := c.P
+	fn := P.Method("servitor/splicer", "Splicer", "Harvest")
+	fname := FuncName(fn)
+	n := 0
+	eachInstr(fn, func(_ *ssa.BasicBlock, _ int, in ssa.Instruction) {
+		call, ok := in.(*ssa.Call)
+		if !ok {
+			return
+		}
+		sc := call.Call.StaticCallee()
+		if sc == nil || sc.Name() != "replenish" || len(call.Call.Args) < 2 {
+			return
+		}
+		n++
+		want := lin(fn.Params[1]).add(lin(fn.Params[2]), 1)
+		got := lin(call.Call.Args[len(call.Call.Args)-1])
+		d := got.add(want, -1)
+		c.check(d.isConst() && d.c == 0, fname+"/replenish-amount", P.InstrPos(in), fname, "replenish(quantity + startingPoint)",
+			"the sources are replenished to "+got.String()+" items, not to quantity + startingPoint: a source that should deliver the whole page is not refilled far enough and newer items of it come out after older ones of the others")
+	})
+	if n == 0 {
+		c.bad(fname+"/replenish-amount", P.Pos(fn.Pos()), fname, "Harvest no longer replenishes the sources before it selects")
 	}
 }
